@@ -355,4 +355,196 @@ theorem tc_step' {s s' : St} {l : Label} (h : step s l = some s') (hc : s'.trans
   rw [h2]; rw [h1] at hc
   exact tc_step0 h0 hc
 
+/-! ### frame facts for the labels outside reqLabel -/
+
+/-- Labels outside `reqLabel` that do not cancel any request context. -/
+def Label.plainC : Label → Bool
+  | .ecall | .enotify | .ectx _ | .eclose | .ewait | .start | .n1 _ | .n2 _ | .c1 _ | .retire _ | .wt _ | .cl1 | .rresp => true
+  | .wret (.resp _) _ => false
+  | .wret _ _ => true
+  | .w1 (.resp _) => false
+  | .w1 _ => true
+  | _ => false
+
+set_option linter.unusedSimpArgs false in
+set_option maxRecDepth 8000 in
+theorem plain_frame {s s0 : St} {l : Label} (h : step0 s l = some s0) (hl : l.plainC = true) :
+    s0.cores = s.cores ∧ s0.byID = s.byID ∧ s0.metas = s.metas ∧ s0.writeErr = s.writeErr := by
+  cases l <;> simp [Label.plainC] at hl <;> simp only [step0] at h
+  all_goals (repeat' (split at h))
+  all_goals first
+    | (simp [Label.plainC] at hl; done)
+    | (simp at h; done)
+    | (injection h with h; subst h; first | exact ⟨rfl, rfl, rfl, rfl⟩ | (simp; done) | (split <;> simp; done))
+
+
+/-! "No new writer on its way to W2": every element of `l0` with `P` is accounted for by `B` or by an
+element of `l` with `P`. -/
+def Le {α : Type} (B : Prop) (P : α → Prop) (l0 l : List α) : Prop := ∀ a ∈ l0, P a → B ∨ ∃ a' ∈ l, P a'
+
+theorem Le.refl {α : Type} (B : Prop) (P : α → Prop) (l : List α) : Le B P l l := fun a ha hp => Or.inr ⟨a, ha, hp⟩
+
+theorem mem_modify_cases {α : Type} {l : List α} {i : Nat} {f : α → α} {a : α} (h : a ∈ l.modify i f) :
+    a ∈ l ∨ ∃ b ∈ l, a = f b := by
+  obtain ⟨j, hj⟩ := List.getElem?_of_mem h
+  rw [List.getElem?_modify] at hj
+  cases hl : l[j]? with
+  | none => simp [hl] at hj
+  | some b =>
+    have hb : b ∈ l := List.mem_of_getElem? hl
+    simp only [hl] at hj
+    split at hj
+    · cases hj; exact Or.inr ⟨b, hb, rfl⟩
+    · cases hj; exact Or.inl hb
+
+theorem Le.modify {α : Type} {B : Prop} {P : α → Prop} {l0 l : List α} (i : Nat) (f : α → α)
+    (hf : ∀ a, P (f a) → B ∨ P a) (h : Le B P l0 l) : Le B P (l0.modify i f) l := by
+  intro a ha hp
+  rcases mem_modify_cases ha with ha | ⟨b, hb, rfl⟩
+  · exact h a ha hp
+  · rcases hf b hp with hB | hpb
+    · exact Or.inl hB
+    · exact h b hb hpb
+
+theorem Le.append {α : Type} {B : Prop} {P : α → Prop} {l0 l : List α} (x : α) (hx : ¬ P x) (h : Le B P l0 l) :
+    Le B P (l0 ++ [x]) l := by
+  intro a ha hp
+  rcases List.mem_append.mp ha with ha | ha
+  · exact h a ha hp
+  · simp at ha; subst ha; exact absurd hp hx
+
+def IsW2c (c : Call) : Prop := ∃ e, c.pc = .w2 e
+def IsW2n (nf : Notif) : Prop := ∃ e, nf.pc = .w2 e
+
+@[simp] theorem modCall_calls' (s : St) (n : Nat) (f : Call → Call) : (modCall s n f).calls = s.calls.modify (n - 1) f := rfl
+
+theorem retireIn_calls' (s : St) (n : Nat) (r : Res) :
+    (retireIn s n r).calls = s.calls.modify (n - 1) (fun c => (retireCall c r).1) ∨ (retireIn s n r).calls = s.calls := by
+  unfold retireIn
+  split
+  · exact Or.inr rfl
+  · rename_i c hc
+    left
+    have h0 := calls_get hc
+    rw [modify_const _ _ c _ h0]
+    simp only []
+    split <;> rfl
+
+theorem retireCall_pc (c : Call) (r : Res) : (retireCall c r).1.pc = c.pc := by
+  unfold retireCall; split <;> rfl
+
+theorem Le.retireIn {B : Prop} {l : List Call} (s : St) (n : Nat) (r : Res) (h : Le B IsW2c s.calls l) :
+    Le B IsW2c (Conn.retireIn s n r).calls l := by
+  rcases retireIn_calls' s n r with he | he <;> rw [he]
+  · exact Le.modify _ _ (fun a ⟨e, he⟩ => Or.inr ⟨e, by rw [← retireCall_pc a r]; exact he⟩) h
+  · exact h
+
+theorem Le.foldl_retire {B : Prop} {l : List Call} (r : Res) (ns : List Nat) (s : St) (h : Le B IsW2c s.calls l) :
+    Le B IsW2c (ns.foldl (fun s n => Conn.retireIn s n r) s).calls l := by
+  induction ns generalizing s with
+  | nil => exact h
+  | cons a t ih => exact ih _ (Le.retireIn s a r h)
+
+
+theorem foldl_cancel_calls (l : List (Nat × Nat)) (c : Cause) (s : St) :
+    (l.foldl (fun s p => cancelReq s p.2 c) s).calls = s.calls := congrArg CallView.calls (callView_foldl_cancel l c s)
+
+/-- The label is a transport Write that failed. -/
+def Label.isBroken (l : Label) : Prop := ∃ w, l = .wret w .broken
+
+set_option linter.unusedSimpArgs false in
+set_option maxRecDepth 8000 in
+theorem w2_calls {s s0 : St} {l : Label} (h : step0 s l = some s0) (hl : l.reqLabel = false) :
+    Le l.isBroken IsW2c s0.calls s.calls := by
+  by_cases hrx : l = .rx
+  · subst hrx
+    simp only [step0] at h
+    split at h
+    · cases h
+    · cases h
+      rw [tail_calls, foldl_cancel_calls]
+      exact Le.foldl_retire _ _ _ (Le.refl _ _ _)
+  cases l <;> simp only [step0] at h
+  all_goals (repeat' (split at h))
+  all_goals first
+    | (simp at hrx; done)
+    | (simp [Label.reqLabel] at hl; done)
+    | (simp at h; done)
+    | (injection h with h; subst h
+       try simp only [tail_calls, modCall_calls', cancelReq_calls, markBroken_calls, setNotif_calls]
+       repeat (first
+         | exact Le.refl _ _ _
+         | (refine Le.modify _ _ (fun a hp => by
+              obtain ⟨e, he⟩ := hp
+              first | (simp at he; done) | exact Or.inr ⟨e, he⟩ | exact Or.inl ⟨_, rfl⟩) ?_)
+         | (refine Le.append _ (fun hp => by obtain ⟨e, he⟩ := hp; simp at he) ?_)
+         | (refine Le.retireIn _ _ _ ?_)
+         | (simp only [tail_calls, modCall_calls', cancelReq_calls, markBroken_calls, setNotif_calls])
+         | split))
+
+@[simp] theorem tail_unotifs (s : St) : (tail s).unotifs = s.unotifs := by
+  unfold tail finish closeTransport; repeat' split
+  all_goals rfl
+@[simp] theorem tail_cnotifs (s : St) : (tail s).cnotifs = s.cnotifs := by
+  unfold tail finish closeTransport; repeat' split
+  all_goals rfl
+@[simp] theorem modCall_unotifs (s : St) (n : Nat) (f : Call → Call) : (modCall s n f).unotifs = s.unotifs := rfl
+@[simp] theorem modCall_cnotifs (s : St) (n : Nat) (f : Call → Call) : (modCall s n f).cnotifs = s.cnotifs := rfl
+@[simp] theorem cancelReq_unotifs (s : St) (r : Nat) (c : Cause) : (cancelReq s r c).unotifs = s.unotifs := rfl
+@[simp] theorem cancelReq_cnotifs (s : St) (r : Nat) (c : Cause) : (cancelReq s r c).cnotifs = s.cnotifs := rfl
+@[simp] theorem retireIn_unotifs (s : St) (n : Nat) (r : Res) : (retireIn s n r).unotifs = s.unotifs := by
+  obtain ⟨cs, pr, h⟩ := retireIn_eq s n r; rw [h]
+@[simp] theorem retireIn_cnotifs (s : St) (n : Nat) (r : Res) : (retireIn s n r).cnotifs = s.cnotifs := by
+  obtain ⟨cs, pr, h⟩ := retireIn_eq s n r; rw [h]
+@[simp] theorem markBroken_unotifs (s : St) : (markBroken s).unotifs = s.unotifs := by
+  rw [markBroken_eq]; split <;> rfl
+@[simp] theorem markBroken_cnotifs (s : St) : (markBroken s).cnotifs = s.cnotifs := by
+  rw [markBroken_eq]; split <;> rfl
+
+theorem Le.setNotif_u {B : Prop} {l : List Notif} (s : St) (w : Who) (f : Notif → Notif)
+    (hf : ∀ a, IsW2n (f a) → B ∨ IsW2n a) (h : Le B IsW2n s.unotifs l) : Le B IsW2n (setNotif s w f).unotifs l := by
+  cases w
+  case unotif k => exact Le.modify _ _ hf h
+  all_goals exact h
+
+theorem Le.setNotif_c {B : Prop} {l : List Notif} (s : St) (w : Who) (f : Notif → Notif)
+    (hf : ∀ a, IsW2n (f a) → B ∨ IsW2n a) (h : Le B IsW2n s.cnotifs l) : Le B IsW2n (setNotif s w f).cnotifs l := by
+  cases w
+  case cnotif k => exact Le.modify _ _ hf h
+  all_goals exact h
+
+set_option linter.unusedSimpArgs false in
+set_option maxRecDepth 8000 in
+theorem w2_notifs {s s0 : St} {l : Label} (h : step0 s l = some s0) (hl : l.reqLabel = false) :
+    Le l.isBroken IsW2n s0.unotifs s.unotifs ∧ Le l.isBroken IsW2n s0.cnotifs s.cnotifs := by
+  by_cases hrx : l = .rx
+  · subst hrx
+    obtain ⟨cs, pr, rfl⟩ := rx_eq h
+    simp only [tail_unotifs, tail_cnotifs]
+    exact ⟨Le.refl _ _ _, Le.refl _ _ _⟩
+  cases l <;> simp only [step0] at h
+  all_goals (repeat' (split at h))
+  all_goals first
+    | (simp at hrx; done)
+    | (simp [Label.reqLabel] at hl; done)
+    | (simp at h; done)
+    | (injection h with h; subst h
+       constructor
+       all_goals
+        repeat (first
+         | exact Le.refl _ _ _
+         | (refine Le.modify _ _ (fun a hp => by
+              obtain ⟨e, he⟩ := hp
+              first | (simp at he; done) | exact Or.inr ⟨e, he⟩ | exact Or.inl ⟨_, rfl⟩) ?_)
+         | (refine Le.setNotif_u _ _ _ (fun a hp => by
+              obtain ⟨e, he⟩ := hp
+              first | (simp at he; done) | exact Or.inr ⟨e, he⟩ | exact Or.inl ⟨_, rfl⟩) ?_)
+         | (refine Le.setNotif_c _ _ _ (fun a hp => by
+              obtain ⟨e, he⟩ := hp
+              first | (simp at he; done) | exact Or.inr ⟨e, he⟩ | exact Or.inl ⟨_, rfl⟩) ?_)
+         | (refine Le.append _ (fun hp => by obtain ⟨e, he⟩ := hp; simp at he) ?_)
+         | (simp only [tail_unotifs, tail_cnotifs, modCall_unotifs, modCall_cnotifs, cancelReq_unotifs, cancelReq_cnotifs,
+              retireIn_unotifs, retireIn_cnotifs, markBroken_unotifs, markBroken_cnotifs])
+         | split))
+
 end Conn
